@@ -88,17 +88,40 @@ func (e embedding) rInv(c int32) int32 {
 	return c - e.rOff
 }
 
-func blockID(i int) tmproto.BlockID {
+// The abstract block ids 1, 2, 3 ... of the specification are made concrete in several ways: block ids that differ
+// in every component, and block ids that differ in exactly one component (block hash, number of parts, hash of the
+// part set).  Two different abstract ids are two different blocks in every mode.
+var bidModes = []string{"all components differ", "only the part-set hash differs", "only the number of parts differs", "only the block hash differs"}
+
+func rep(b int) []byte { return bytes.Repeat([]byte{byte(b)}, 32) }
+
+func (r *runner) blockID(i int) tmproto.BlockID {
 	if i == 0 {
 		return tmproto.BlockID{}
 	}
-	h := bytes.Repeat([]byte{byte(i)}, 32)
-	return tmproto.BlockID{Hash: h, PartSetHeader: tmproto.PartSetHeader{Total: 1, Hash: h}}
+	switch r.bidMode {
+	case 1:
+		return tmproto.BlockID{Hash: rep(0x77), PartSetHeader: tmproto.PartSetHeader{Total: 3, Hash: rep(i)}}
+	case 2:
+		return tmproto.BlockID{Hash: rep(0x77), PartSetHeader: tmproto.PartSetHeader{Total: uint32(i), Hash: rep(0x55)}}
+	case 3:
+		return tmproto.BlockID{Hash: rep(i), PartSetHeader: tmproto.PartSetHeader{Total: 3, Hash: rep(0x55)}}
+	}
+	return tmproto.BlockID{Hash: rep(i), PartSetHeader: tmproto.PartSetHeader{Total: 1, Hash: rep(i)}}
 }
 
-func bidOf(b *tmproto.CanonicalBlockID) int {
+func (r *runner) bidOf(b *tmproto.CanonicalBlockID) int {
 	if b == nil || len(b.Hash) == 0 {
 		return 0
+	}
+	switch r.bidMode {
+	case 1:
+		if len(b.PartSetHeader.Hash) == 0 {
+			return -1
+		}
+		return int(b.PartSetHeader.Hash[0])
+	case 2:
+		return int(b.PartSetHeader.Total)
 	}
 	return int(b.Hash[0])
 }
@@ -119,6 +142,7 @@ type runner struct {
 	keyFile string
 	stFile  string
 	emb     embedding
+	bidMode int
 }
 
 func (r *runner) readDisk() diskRec {
@@ -148,12 +172,12 @@ func (r *runner) readDisk() diskRec {
 		if d.S == 1 {
 			var p tmproto.CanonicalProposal
 			if protoio.UnmarshalDelimited(sb, &p) == nil {
-				d.Bid, d.Ts = bidOf(p.BlockID), tsOf(p.Timestamp)
+				d.Bid, d.Ts = r.bidOf(p.BlockID), tsOf(p.Timestamp)
 			}
 		} else {
 			var v tmproto.CanonicalVote
 			if protoio.UnmarshalDelimited(sb, &v) == nil {
-				d.Bid, d.Ts = bidOf(v.BlockID), tsOf(v.Timestamp)
+				d.Bid, d.Ts = r.bidOf(v.BlockID), tsOf(v.Timestamp)
 			}
 		}
 	}
@@ -195,7 +219,7 @@ func (r *runner) sign(st Step) map[string]any {
 		r.armed = st.Crash
 		defer func() { r.armed = false }()
 		if st.S == 1 {
-			p := &tmproto.Proposal{Type: tmproto.ProposalType, Height: r.emb.h(st.H), Round: r.emb.r(st.R), PolRound: -1, BlockID: blockID(st.Bid), Timestamp: ts}
+			p := &tmproto.Proposal{Type: tmproto.ProposalType, Height: r.emb.h(st.H), Round: r.emb.r(st.R), PolRound: -1, BlockID: r.blockID(st.Bid), Timestamp: ts}
 			defer func() { sig, rts = p.Signature, p.Timestamp }()
 			signBytes = func() []byte { return tmtypes.ProposalSignBytes(chainID, p) }
 			err = r.pv.SignProposal(chainID, p)
@@ -205,7 +229,7 @@ func (r *runner) sign(st Step) map[string]any {
 				typ = tmproto.PrecommitType
 			}
 			addr := r.pv.GetAddress()
-			v := &tmproto.Vote{Type: typ, Height: r.emb.h(st.H), Round: r.emb.r(st.R), BlockID: blockID(st.Bid), Timestamp: ts, ValidatorAddress: addr, ValidatorIndex: 0}
+			v := &tmproto.Vote{Type: typ, Height: r.emb.h(st.H), Round: r.emb.r(st.R), BlockID: r.blockID(st.Bid), Timestamp: ts, ValidatorAddress: addr, ValidatorIndex: 0}
 			defer func() { sig, rts = v.Signature, v.Timestamp }()
 			signBytes = func() []byte { return tmtypes.VoteSignBytes(chainID, v) }
 			err = r.pv.SignVote(chainID, v)
@@ -256,11 +280,11 @@ func ExecAll(seqs [][]Step, tmp string, w *bufio.Writer) (int, error) {
 			return n, err
 		}
 		r := &runner{dir: dir, sigTok: map[string]int{}, keyFile: filepath.Join(dir, "key.json"), stFile: filepath.Join(dir, "state.json"),
-			emb: embeddings[i%len(embeddings)]}
+			emb: embeddings[i%len(embeddings)], bidMode: (i / len(embeddings)) % len(bidModes)}
 		cur = r
 		r.pv = rcrypto.GenSFilePV(r.keyFile, r.stFile)
 		r.pv.SaveWith(nil)
-		_ = enc.Encode(map[string]any{"ev": "Reset", "i": i, "disk": r.readDisk(), "embedding": r.emb.name})
+		_ = enc.Encode(map[string]any{"ev": "Reset", "i": i, "disk": r.readDisk(), "embedding": r.emb.name, "blockids": bidModes[r.bidMode]})
 		for _, st := range seq {
 			var ev map[string]any
 			if st.Ev == "Reload" || r.pv == nil {
